@@ -264,9 +264,10 @@ func (g *gen) freshValueType(extOnly bool, label string) TypeID {
 		return g.newStruct("", false)
 	default:
 		if g.want("generic", "generic", 100) {
-			el := g.addType(Type{Kind: KBasic, Basic: "int"})
-			if rapid.Bool().Draw(g.rt, "generic-elem") {
-				el = g.newStruct("", false)
+			el := g.newStruct("", false)
+			if rapid.Bool().Draw(g.rt, "generic-elem") && !g.basicsUsed["box-int"] {
+				g.basicsUsed["box-int"] = true
+				el = g.addType(Type{Kind: KBasic, Basic: "int"})
 			}
 			g.used["Box"] = true
 			return g.addType(Type{Kind: KGeneric, Name: "Box", Elem: el})
